@@ -2,20 +2,24 @@
 Proof: coq/props/C04.v over the deep embedding of adaptor trees (Signal/Sig.v): pointwise law per
 adaptor, delay law, one-pull-per-source (by position in the tree, any nesting), by_ref resumption,
 composition law, clip law.  Tie: the executable instances (Signal/SigRun.v) are run inside coqc on
-random adaptor trees and compared exactly with dasp_signal driven through a local Box<dyn Signal>."""
+random adaptor trees and compared exactly with dasp_signal driven through a local Box<dyn Signal>; plus a
+statically typed nesting family (`st` nodes: method chains on concrete adaptor types, see st_cases below)."""
 import framework as F
 import sigcases as S
 
 PROP = "C04"
 META = dict(
     technique="Coq proof by structural induction over a deep embedding of adaptor trees + coqc-evaluated model vs crate correspondence on random trees",
-    text="Machine-checked (Coq 8.16.1) over a deep embedding of dasp_signal's adaptor trees whose next/is_exhausted are written after the Rust impls, parametric in the frame type and frame operations: the n-th frame of every adaptor is the frame operation applied to the n-th frame(s) of its source(s); delay(k) is k equilibrium frames then the source; every next advances every sub-signal of the tree by exactly one next (none below a delay that is still emitting silence) so a borrowed signal resumes exactly where the adaptor left it; any nesting equals the composition of the pointwise functions; clip_amp clamps the signed amplitude to [-t,t]. Tied to the crate by running the model inside coqc on random trees (depth <= 5, five formats incl. float, unsigned, multi-channel, bare-sample frames) and comparing frames, is_exhausted, the order of leaf pulls / closure calls and the leaf pull counters exactly.",
+    text="Machine-checked (Coq 8.16.1) over a deep embedding of dasp_signal's adaptor trees whose next/is_exhausted are written after the Rust impls, parametric in the frame type and frame operations: the n-th frame of every adaptor is the frame operation applied to the n-th frame(s) of its source(s); delay(k) is k equilibrium frames then the source; every next advances every sub-signal of the tree by exactly one next (none below a delay that is still emitting silence) so a borrowed signal resumes exactly where the adaptor left it; any nesting equals the composition of the pointwise functions; clip_amp clamps the signed amplitude to [-t,t]. Tied to the crate by running the model inside coqc on random trees (depth <= 5; five hand instances incl. float, unsigned, multi-channel, bare-sample frames, and instances over the C03 sample model for all other sample formats incl. I24 / U48 as bare samples) and comparing frames, is_exhausted, the order of leaf pulls / closure calls and the leaf pull counters exactly. Besides the trees built behind dyn Signal boxes there is a STATICALLY TYPED nesting family: for every ordered pair (outer, inner) of the 13 adaptor kinds (offset, scale, their per-channel variants, clip, delay, inspect, map x2, add, mul, zip_map x2) the harness applies `leaf.inner(p1).outer(p2)` as one method chain on concrete types (7 formats), same-kind triples for offset / scale, and every kind on a statically typed Equilibrium / Gen / GenMut leaf, so that an inherent method shadowing a Signal method or an impl specialised to one adaptor type is what gets called; parameters are chosen so that folding two levels into one is visible (non-dyadic float constants checked to round differently; integer offsets whose sum overflows the format although the running sums do not). Delay lengths are also generated AT TYPE-WIDTH BOUNDARIES: every k in {2^w - 1, 2^w, 2^w + 1, 2^w + 2, 2^w + 5 : w = 8, 15, 16, 24, 31, 32, 33, 53, 63} and 3*2^32 + 1, 5*2^32, 2^40 + 3, 2^63 + 2^32, 2^64 - 2^32 (+1), usize::MAX - 1, usize::MAX, over a borrowed finite base at any position of a small tree, on owned (almost) empty sources, nested in another long delay, cloned, and in the statically typed forms: a few calls must yield equilibrium only, leave is_exhausted false, pull nothing, and hand the base back at its first frame. The model counts a delay in unary, so the executable model first clamps every delay length of a case to 1 + the number of calls of next the case can make; theorem c04_run_delay_normalisation_sound (every case, every instance) says this changes no observation, from c04_delay_beyond_run (for every tree holding a delay longer than m, any other length above m is indistinguishable during m calls: frames, events, is_exhausted, pull counters, sub-signals handed back).",
     note="Trusted: Coq kernel; the hand-written model (closures as pure functions, iterators as lists) validated only through the correspondence; Flocq-based float instance validated against rustc in the same run; harness + python generators. Axioms: none.",
     design="6/C04")
 
 RULE = ("random adaptor trees (bases of depth <= 2 borrowed through by_ref by op trees of depth <= 3, plus owned trees of depth <= 5) over "
         "[i16;2], [u8;3], i32, f64, [f32;2] (hand instances) and I24, U24, I48, U48, i8, u16, u32, i64, u64 as bare samples and 2-3 channel arrays (instances over the C03 sample model, true equilibrium, specification-guarded conversions), source lengths <= 40, by_ref hand-backs after random numbers of next; owned stacks also cloned "
         "after j calls (clone and original must continue identically) and driven through clone / nth / skip of the returned iterators; "
+        "plus the statically typed nesting family (harness node `st`: one method chain on concrete adaptor types, no box between the levels; the model evaluates the ordinary nested tree): every ordered pair (outer, inner) of {offset, scale, offsetpc, scalepc, clip, delay, inspect, map rev, map add-k, add, mul, zip sub, zip select} over f64, [f32;2], [i16;2], [u8;3], i32, I24, U48 leaves (mul only where signal x signal mul is driven), "
+        "offset-like and scale-like chains incl. same-kind triples with fold-revealing parameters (floats: non-dyadic constants for which sequential and folded evaluation differ on some frame, checked in python; integers with a same-width Signed companion: a + b outside the format while x + a and x + a + b are inside, exact per-channel sums), and every kind on a statically typed eq / gen / gen_mut leaf; "
+        "plus the boundary-count family: for every delay length k of S.boundary_counts (2^w-1, 2^w, 2^w+1, 2^w+2, 2^w+5 for w in 8,15,16,24,31,32,33,53,63; multiples of 2^32 plus a little; usize::MAX and neighbours) one case over a borrowed finite base: delay(k) under 0-2 random adaptor levels for 3-5 calls, the base read back, delay(k) over an (almost) empty owned source, nested with another long / a short delay, a cloned stack, the three statically typed forms; the model receives the true k and clamps it to the run's bound itself (theorem c04_run_delay_normalisation_sound); "
         "non-trivial = some op tree (bases expanded) of depth >= 2 containing a delay with k > 0 or a binary node whose sources have different lengths, or an interleaved-sample iterator cloned mid-frame")
 
 
@@ -74,13 +78,351 @@ def gen_case(r, tier, fm=None):
     raise RuntimeError("could not generate a valid case")
 
 
+# ---------------------------------------------------------------------------
+# statically typed nesting: `leaf.inner(p1).outer(p2)` as ONE method chain on concrete types (harness: `st`), for
+# EVERY ordered pair (outer, inner) of adaptor kinds; the model evaluates the ordinary two-level tree.
+# Behind the harness's `dyn Signal` boxes the static type of an adaptor never occurs as a receiver, so an inherent
+# method shadowing a trait method (e.g. an `OffsetAmp::offset_amp` folding two offsets into one) or an impl
+# specialised to one adaptor type is invisible to the boxed trees; here it is what gets called.
+
+ST_FMTS = ["f64x1", "f32x2", "i16x2", "u8x3", "i32x1", "i24x1", "u48x1"]
+ST_VARIANTS = ["offset", "scale", "offsetpc", "scalepc", "clip", "delay", "inspect", "map0", "map1", "add", "mul", "zip0", "zip1"]
+UGLY = [0.1, 0.2, 0.3, 0.7, 1.0 / 3.0, -0.9, 0.6, -0.15]   # constants whose sums / products round
+
+
+class StGen(S.Gen):
+    """float formats: offsets and gains that are NOT dyadic, so that (x + a) + b != x + (a + b) and
+    (x * a) * b != x * (a * b) for most x -- a folded pair of parameters is then visible"""
+
+    def float_const(self):
+        if self.spec["flt"]:
+            return S.fbits(self.fm, self.r.choice(UGLY))
+        return super().float_const()
+
+    def signed_const(self):
+        if self.spec["flt"]:
+            return S.fbits(self.fm, self.r.choice(UGLY))
+        return super().signed_const()
+
+
+def st_variants(fm):
+    spec = S.FMTS[fm]
+    # mul_amp between signals is driven for the float formats and the instances over the C03 sample model only
+    return [v for v in ST_VARIANTS if v != "mul" or spec["flt"] or spec["gen"]]
+
+
+def st_level(g, v, sub):
+    r = g.r
+    if v == "map0":
+        return ["map", g.fresh(), 0, 0, sub]
+    if v == "map1":
+        k = g.sample() if g.spec["flt"] else r.choice([1, -1, r.range(-100, 100) if g.spec["bits"] > 8 else r.range(-1, 1)])
+        return ["map", g.fresh(), 1, k, sub]
+    if v in ("zip0", "zip1", "add", "mul"):
+        other = g.leaf(kinds=("gen", "iter", "iter", "genmut", "samp"))
+        if v[:3] == "zip":
+            return ["zip", g.fresh(), int(v[3]), sub, other]
+        return g.binary(v, sub, other)
+    if v == "delay":
+        return ["delay", r.choice([1, 1, 2, 3]), sub]
+    return g.unary(v, sub)
+
+
+def st_exact_zip0(g, fm, outer):
+    """unsigned formats: the raw wrapping subtraction of zip_map fn 0 under an offset-like outer level.  The bound
+    analysis only knows `anywhere in the range` for the difference, so the parameters are built from constant sources
+    and checked exactly: raw difference = equilibrium + d with a small amplitude d, then + a with d + a small"""
+    spec, r = S.FMTS[fm], g.r
+    off, n = spec["off"], spec["n"]
+    if not off or outer not in ("offset", "offsetpc", "add"):
+        return None
+    scale = 1 << (spec["sbits"] - spec["bits"])
+    d = [r.range(-20, 20) for _ in range(n)]
+    y = [r.range(1, 30) for _ in range(n)]
+    x = [(off + d[c] + y[c]) % (2 * off) for c in range(n)]
+    a = [r.range(-50, 50) for _ in range(n)]
+    assert all(-off <= d[c] + a[c] < off and 0 <= x[c] < 2 * off for c in range(n))
+    t = ["zip", g.fresh(), 0, ["gen", g.fresh(), x], ["gen", g.fresh(), y]]
+    if outer == "offset":
+        t = ["offset", a[0] * scale, t]
+        assert all(-off <= d[c] + a[0] < off for c in range(n))
+    elif outer == "offsetpc":
+        t = ["offsetpc", [v * scale for v in a], t]
+    else:
+        t = g.binary("add", t, ["gen", g.fresh(), [v + off for v in a]])
+    return ["N", 4, ["st", 2, t]]
+
+
+def st_item(fm, ops, tag):
+    return S.build(dict(fmt=fm, bases=[], ops=ops, wide=False, family=tag))
+
+
+def st_pair_cases(rng):
+    """one case per (format, inner kind): an `N k` op per outer kind"""
+    items, skipped, pairs = [], [], 0
+    for fm in ST_FMTS:
+        flt = S.FMTS[fm]["flt"]
+        vs = st_variants(fm)
+        for inner in vs:
+            r = rng.fork(f"st_{fm}_{inner}")
+            g = StGen(r, fm, maxlen=6 if flt else 10)
+            ops = []
+            for outer in vs:
+                for attempt in range(40):
+                    leaf = g.leaf(kinds=("iter", "iter", "iter", "samp", "gen", "genmut"))
+                    t = ["st", 2, st_level(g, outer, st_level(g, inner, leaf))]
+                    op = ["N", 5 if flt else 6, t]
+                    if S.valid(dict(fmt=fm, bases=[], ops=[op])):
+                        ops.append(op)
+                        pairs += 1
+                        break
+                else:
+                    op = st_exact_zip0(g, fm, outer) if inner == "zip0" else None
+                    if op:
+                        ops.append(op)
+                        pairs += 1
+                    else:
+                        skipped.append(f"{fm}:{outer}({inner})")
+            if ops:
+                items.append(st_item(fm, ops, "st_pairs"))
+    return items, pairs, skipped
+
+
+def st_leaf_cases(rng):
+    """one level applied to a statically typed LEAF of the crate (signal::Equilibrium, Gen, GenMut as the receiver):
+    every adaptor kind x every such leaf kind, per format"""
+    items, n = [], 0
+    for fm in ST_FMTS:
+        flt = S.FMTS[fm]["flt"]
+        r = rng.fork(f"stleaf_{fm}")
+        g = StGen(r, fm, maxlen=6 if flt else 10)
+        ops = []
+        for v in st_variants(fm):
+            for lk in ("eq", "gen", "genmut"):
+                for attempt in range(40):
+                    op = ["N", 4, ["st", 1, st_level(g, v, g.leaf(kinds=(lk,)))]]
+                    if S.valid(dict(fmt=fm, bases=[], ops=[op])):
+                        ops.append(op)
+                        n += 1
+                        break
+        items.append(st_item(fm, ops, "st_leaf"))
+    return items, n
+
+
+def fval(fm, b):
+    return S.struct.unpack("<d", S.struct.pack("<Q", b))[0] if S.FMTS[fm]["flt"] == 64 else S.struct.unpack("<f", S.struct.pack("<I", b))[0]
+
+
+def frnd(fm, x):
+    """round a python float (an exact sum / product of two values of the format) to the format"""
+    return x if S.FMTS[fm]["flt"] == 64 else S.struct.unpack("<f", S.struct.pack("<f", x))[0]
+
+
+def fold_visible(fm, op, frames, consts):
+    """float formats: does applying the constants one after the other differ, on some channel of some frame, from
+    applying their folded sum / product once?  consts: one list of per-channel values per level, innermost first"""
+    f = (lambda a, b: frnd(fm, a + b)) if op == "+" else (lambda a, b: frnd(fm, a * b))
+    for fr in frames:
+        for c, xb in enumerate(fr):
+            x = fval(fm, xb)
+            seq = x
+            fold = None
+            for lv in consts:
+                seq = f(seq, lv[c])
+                fold = lv[c] if fold is None else f(fold, lv[c])
+            if seq == seq and f(x, fold) == f(x, fold) and seq != f(x, fold):
+                return True
+    return False
+
+
+def st_fold_cases(rng):
+    """same-family chains whose parameters must NOT be folded: offset-like (offset, offsetpc, add) and scale-like
+    (scale, scalepc, mul) pairs and offset / scale triples.
+    floats: non-dyadic constants, checked here to make a folded evaluation differ on some frame;
+    integers (formats whose Signed companion has the same width): a + b overflows the format although x + a and
+    x + a + b do not (exact per-channel sums; the |x| + |a| bound analysis would reject them), so a folded
+    evaluation panics in a debug build and wraps in a release build."""
+    items, stats = [], dict(fold_ops=0, fold_visible_float=0, fold_overflow_int=0)
+    for fm in ST_FMTS:
+        spec = S.FMTS[fm]
+        n, flt = spec["n"], spec["flt"]
+        r = rng.fork(f"stfold_{fm}")
+        g = StGen(r, fm, maxlen=6)
+        ops = []
+        if flt:
+            def consts():
+                return [fval(fm, S.fbits(fm, r.choice(UGLY))) for _ in range(n)]
+            for fam, kinds, sym in (("offset", ("offset", "offsetpc", "add"), "+"), ("scale", ("scale", "scalepc", "mul"), "*")):
+                chains = [(a, b) for a in kinds for b in kinds] + [(kinds[0],) * 3]
+                for chain in chains:
+                    for attempt in range(60):
+                        frames = [g.frame() for _ in range(5)]
+                        lv = []
+                        for kd in chain:          # innermost first
+                            cs = consts()
+                            if kd in ("offset", "scale"):
+                                cs = [cs[0]] * n
+                            lv.append(cs)
+                        if fold_visible(fm, sym, frames, lv):
+                            break
+                    else:
+                        continue
+                    t = ["iter", g.fresh(), frames]
+                    for kd, cs in zip(chain, lv):
+                        bits = [S.fbits(fm, c) for c in cs]
+                        if kd in ("offset", "scale"):
+                            t = [kd, bits[0], t]
+                        elif kd in ("offsetpc", "scalepc"):
+                            t = [kd, bits, t]
+                        else:
+                            t = [kd, t, ["gen", g.fresh(), bits]]
+                    ops.append(["N", 5, ["st", len(chain), t]])
+                    stats["fold_visible_float"] += 1
+        elif spec["sbits"] == spec["bits"]:
+            mx = (1 << (spec["bits"] - 1)) - 1
+            off = spec["off"]
+            kinds = ("offset", "offsetpc", "add")
+            chains = [(a, b) for a in kinds for b in kinds] + [("offset",) * 3]
+            for chain in chains:
+                sgn = r.choice([1, -1])
+                pct = lambda lo, hi: [sgn * r.range(mx * lo // 100, mx * hi // 100) for _ in range(n)]
+                frames = [[-v for v in pct(75, 90)] for _ in range(4)]         # amplitudes of the source
+                lv = []
+                for i, kd in enumerate(chain):
+                    cs = pct(55, 70) if i < 2 else pct(20, 33)
+                    if kd == "offset":
+                        cs = [cs[0]] * n
+                    lv.append(cs)
+                # exact check: every partial sum stays in the format, the folded a + b does not
+                for fr in frames:
+                    for c in range(n):
+                        acc = fr[c]
+                        for cs in lv:
+                            acc += cs[c]
+                            assert -mx - 1 <= acc <= mx, "static-nesting overflow case is not in range"
+                assert all(abs(lv[0][c] + lv[1][c]) > mx + 1 for c in range(n))
+                t = ["iter", g.fresh(), [[v + off for v in fr] for fr in frames]]
+                for kd, cs in zip(chain, lv):
+                    if kd == "offset":
+                        t = ["offset", cs[0], t]
+                    elif kd == "offsetpc":
+                        t = ["offsetpc", cs, t]
+                    else:
+                        t = g.binary("add", t, ["gen", g.fresh(), [v + off for v in cs]])
+                ops.append(["N", len(frames), ["st", len(chain), t]])   # exactly the source's frames: no equilibrium tail
+                stats["fold_overflow_int"] += 1
+        if not flt:
+            # scale-like chains on integers: each level converts to the float companion and back (truncating), non-dyadic gains
+            kinds = ("scale", "scalepc") + (("mul",) if spec["gen"] else ())
+            chains = [(a, b) for a in kinds for b in kinds] + [("scale",) * 3]
+            for chain in chains:
+                for attempt in range(40):
+                    t = ["iter", g.fresh(), [g.frame() for _ in range(5)]]
+                    for kd in chain:
+                        t = st_level(g, kd, t)
+                    op = ["N", 6, ["st", len(chain), t]]
+                    if S.valid(dict(fmt=fm, bases=[], ops=[op])):
+                        ops.append(op)
+                        break
+        stats["fold_ops"] += len(ops)
+        if ops:
+            items.append(st_item(fm, ops, "st_fold"))
+    return items, stats
+
+
+def st_cases(rng, tier):
+    items, pairs, skipped = st_pair_cases(rng.fork("pairs0"))
+    if tier != "quick":
+        for k in range(1, 6):
+            more, p2, _ = st_pair_cases(rng.fork(f"pairs{k}"))
+            items += more
+            pairs += p2
+    fold, stats = st_fold_cases(rng.fork("fold"))
+    leafc, nleaf = st_leaf_cases(rng.fork("leaf"))
+    items += leafc
+    dist = {"static_nesting_cases": len(items) + len(fold), "static_nesting_pair_ops": pairs, "static_nesting_leaf_ops": nleaf,
+            "static_nesting_pairs_without_valid_parameters": skipped,
+            "static_nesting_fold_ops": stats["fold_ops"], "static_nesting_fold_visible_float_ops": stats["fold_visible_float"],
+            "static_nesting_fold_overflow_int_ops": stats["fold_overflow_int"]}
+    return items + fold, dist
+
+
+# ---------------------------------------------------------------------------
+# delay lengths at type-width boundaries (2^8 .. 2^63, usize::MAX and neighbours, see S.boundary_counts): for EVERY such
+# k one case over a borrowed finite base:
+#   N m  ctx(delay k (ref 0))   m calls: equilibrium only, is_exhausted false before and after every call, no pull of the
+#                               base (event log, leaf counters); the delay sits under 0-2 random adaptor levels
+#   N 2  ref 0                  the base, handed back, yields its FIRST frames
+#   N m  delay k (empty source), delay k (iter of 1-2 frames)     a delay over an exhausted / short source is live
+#   N m  delay k (delay k' (ref 0)) / small delays around it, a clone of the stack after j calls (NC),
+#        the statically typed forms leaf.delay(k).outer(p) / leaf.inner(p).delay(k) / Equilibrium|Gen|GenMut.delay(k)
+#   N 3  ref 0                  still where it was left
+# (one base in five is itself delay(k'') of the finite source: silence through every op of the case)
+# The model receives the true k (Signal/SigRun.v normalises, see sigcases.py).
+
+def count_cases(rng, tier):
+    items = []
+    ks = S.boundary_counts()
+    reps = 1 if tier == "quick" else 6
+    st_ops = 0
+    for rep_i in range(reps):
+        for i, k in enumerate(ks):
+            fm = S.COUNT_FMTS[(i + rep_i) % len(S.COUNT_FMTS)]
+            flt = S.FMTS[fm]["flt"]
+            r = rng.fork(f"count_{rep_i}_{i}")
+            for attempt in range(60):
+                g = S.Gen(r, fm, maxlen=6)
+                g.lens = [0, 1, 2, 3, 4, 5]
+                base = ["iter", g.fresh(), [g.frame() for _ in range(r.choice([0, 1, 3, 4, 5]))]]
+                if r.chance(1, 3):
+                    base = g.unary(g.unary_kind(), base)
+                other = r.choice([k2 for k2 in ks if k2 != k])
+                if r.chance(1, 5):  # the base itself is delayed beyond the whole case: every borrow of it, in every op, yields silence
+                    base = ["delay", other, base]
+                m = r.range(3, 5)
+                ops = [["N", m, S.count_ctx(g, ["delay", k, ["ref", 0]], r.choice([0, 1, 1, 2]))],
+                       ["N", 2, ["ref", 0]],
+                       ["N", r.range(2, 3), ["delay", k, r.choice([["iter", g.fresh(), []], ["samp", g.fresh(), [g.sample() for _ in range(S.FMTS[fm]["n"] - 1)]]])]],
+                       ["N", 2, ["delay", k, ["iter", g.fresh(), [g.frame() for _ in range(r.choice([1, 2]))]]]],
+                       ["N", 3, r.choice([["delay", k, ["delay", other, ["ref", 0]]],
+                                          ["delay", r.range(1, 2), ["delay", k, ["ref", 0]]],
+                                          ["delay", k, ["delay", r.range(0, 2), ["ref", 0]]]])],
+                       ["NC", r.range(0, 2), 2, S.count_ctx(g, ["delay", k, g.leaf(kinds=("iter", "samp", "gen", "genmut"))], r.choice([0, 1]))]]
+                if fm in ST_FMTS:
+                    sg = StGen(r, fm, maxlen=6)
+                    sg.ids = g.ids
+                    vs = [v for v in st_variants(fm) if v != "delay"]
+                    leaf = lambda: sg.leaf(kinds=("iter", "iter", "samp", "gen", "genmut"))
+                    ops += [["N", 3, ["st", 2, st_level(sg, r.choice(vs), ["delay", k, leaf()])]],
+                            ["N", 3, ["st", 2, ["delay", k, st_level(sg, r.choice(vs), leaf())]]],
+                            ["N", 2, ["st", 1, ["delay", k, sg.leaf(kinds=(r.choice(["eq", "gen", "genmut"]),))]]]]
+                ops.append(["N", 3, ["ref", 0]])
+                it = dict(fmt=fm, bases=[base], ops=ops)
+                if S.valid(it) and sum(S.float_cost(S.op_tree(o), fm, [base]) for o in ops) <= 60:
+                    items.append(S.count_item(fm, [base], ops, "count_boundary"))
+                    st_ops += sum(1 for o in ops if S.op_tree(o)[0] == "st")
+                    break
+            else:
+                raise RuntimeError("no valid boundary-count case")
+    dist = {"count_boundary_cases": len(items), "count_boundary_values": len(ks), "count_boundary_static_ops": st_ops,
+            "count_boundary_histogram": S.count_hist(items)}
+    return items, dist
+
+
 def gen_cases(rng, tier):
     n = 1200 if tier == "quick" else 20000
     items = [gen_case(rng.fork(f"c04_{k}"), tier) for k in range(n)]
     ng = 280 if tier == "quick" else 4200
     items += [gen_case(rng.fork(f"c04_all_{k}"), tier, S.GEN_FMTS[k % len(S.GEN_FMTS)]) for k in range(ng)]
-    return items, {"random_tree_cases": n, "all_sample_format_cases": ng,
-                   "wide_amplitude_cases": sum(1 for it in items if it.get("wide"))}
+    st, st_dist = st_cases(rng.fork("c04_static_nesting"), tier)
+    items += st
+    dist = {"random_tree_cases": n, "all_sample_format_cases": ng,
+            "wide_amplitude_cases": sum(1 for it in items if it.get("wide"))}
+    dist.update(st_dist)
+    cnt, cnt_dist = count_cases(rng.fork("c04_count_boundary"), tier)
+    items += cnt
+    dist.update(cnt_dist)
+    return items, dist
 
 
 def main(rep, tier, seed):
